@@ -71,6 +71,7 @@ var errInjected = errors.New("injected fault")
 
 type faultyBucket struct {
 	delegate storage.WriteBucket
+	errOf    func(prim) error // the error VALUE a fired fault returns (nil: errInjected), see errkinds.go
 	faults   map[prim]bool
 	mu       sync.Mutex
 	trace    []prim              // every primitive executed
@@ -97,9 +98,16 @@ func (b *faultyBucket) hit(p prim) bool {
 	return false
 }
 
+func (b *faultyBucket) err(p prim) error {
+	if b.errOf == nil {
+		return errInjected
+	}
+	return b.errOf(p)
+}
+
 func (b *faultyBucket) Put(ctx context.Context, path string, opts ...storage.PutOption) (storage.WriteObjectCloser, error) {
 	if b.hit(prim{path, 'p', 0}) {
-		return nil, errInjected
+		return nil, b.err(prim{path, 'p', 0})
 	}
 	w, err := b.delegate.Put(ctx, path, opts...)
 	if err != nil {
@@ -129,14 +137,14 @@ func (o *faultyObject) Write(p []byte) (int, error) {
 	o.b.chunks[o.path] = append(o.b.chunks[o.path], string(p))
 	o.b.mu.Unlock()
 	if o.b.hit(prim{o.path, 'w', i}) {
-		return 0, errInjected
+		return 0, o.b.err(prim{o.path, 'w', i})
 	}
 	return o.w.Write(p)
 }
 func (o *faultyObject) Close() error {
 	if o.b.hit(prim{o.path, 'c', 0}) {
 		o.w.Close()
-		return errInjected
+		return o.b.err(prim{o.path, 'c', 0})
 	}
 	return o.w.Close()
 }
@@ -274,6 +282,11 @@ func genCase(r *hx.Rand) opCase {
 
 // run executes the operation against a fresh destination behind the wrapper.
 func (c opCase) run(faults []prim, tmp string) (err error, fb *faultyBucket, dest storage.ReadWriteBucket, count int) {
+	return c.runKind(faults, tmp, nil)
+}
+
+// runKind: like run, every fired fault returning the error value of kind k (nil: errInjected).
+func (c opCase) runKind(faults []prim, tmp string, k *errKind) (err error, fb *faultyBucket, dest storage.ReadWriteBucket, count int) {
 	if c.destDisk {
 		os.RemoveAll(tmp)
 		must(os.MkdirAll(tmp, 0o755))
@@ -284,6 +297,9 @@ func (c opCase) run(faults []prim, tmp string) (err error, fb *faultyBucket, des
 		dest = storagemem.NewReadWriteBucket()
 	}
 	fb = newFaulty(dest, faults)
+	if k != nil {
+		fb.errOf = k.mk
+	}
 	defer func() {
 		if p := recover(); p != nil {
 			err = fmt.Errorf("PANIC: %v", p)
@@ -446,16 +462,21 @@ func partA(run *hx.Run, r *hx.Rand, tmpRoot string) {
 				}
 			}
 		}
-		for _, fs := range scheds {
-			err, fb, dest, cnt := c.run(fs, tmp)
+		for j, fs := range scheds {
+			// error-KIND stratum of this schedule (errkinds.go): the model line is the same for
+			// every kind — whether a failure is reported must not depend on what the error
+			// value looks like (ENOENT, io.EOF, context.Canceled, a joined error, ...)
+			ek := &errKinds[(i+j)%len(errKinds)]
+			err, fb, dest, cnt := c.runKind(fs, tmp, ek)
 			line := c.modelLine(fb, base, fs)
 			out := resultLine(c, err, cnt, dest, fb, base)
 			run.Case(line, out, true)
 			run.Count("A:" + c.kind + ":faults=" + strconv.Itoa(len(fs)) + ":" + okErr(err))
+			run.Count("A:errkind:" + ek.name)
 			for _, f := range fb.fired {
 				run.Count("A:fired:" + string(f.kind))
 			}
-			oracleA(run, i, c, fs, err, fb, dest, cnt)
+			oracleAKind(run, i, c, fs, err, fb, dest, cnt, ek.name)
 		}
 		if c.destDisk {
 			os.RemoveAll(tmp)
@@ -492,8 +513,13 @@ func resultLine(c opCase, err error, cnt int, dest storage.ReadBucket, fb *fault
 }
 
 func oracleA(run *hx.Run, idx int, c opCase, faults []prim, err error, fb *faultyBucket, dest storage.ReadBucket, cnt int) {
+	oracleAKind(run, idx, c, faults, err, fb, dest, cnt, "injected")
+}
+
+func oracleAKind(run *hx.Run, idx int, c opCase, faults []prim, err error, fb *faultyBucket, dest storage.ReadBucket, cnt int, kind string) {
 	in := c.describe()
 	in["faults"] = fmt.Sprint(faults)
+	in["error_kind"] = kind
 	replay := fmt.Sprintf("build/c15 --out /tmp/c15-replay --seed %d --tier %s --only %d", run.Seed, run.Tier, idx)
 	if err != nil && strings.HasPrefix(err.Error(), "PANIC") {
 		run.Fail(hx.OracleFailure{Class: "panic", What: err.Error(), Input: in, Replay: replay})
@@ -1377,6 +1403,8 @@ func main() {
 	partFlush(run, r.Fork(5), tmpRoot)
 	partConc(run, r.Fork(6), tmpRoot)
 	partProducer(run, r.Fork(7), tmpRoot)
+	partWalk(run, r.Fork(8), tmpRoot)
+	partReal(run, r.Fork(9), tmpRoot)
 	run.Finish()
 }
 
